@@ -12,6 +12,7 @@ import tempfile
 from vcommon import Prop, REPO, VERIF, load_known_findings
 import gen_c12
 
+SHM = "/dev/shm"
 ENV_NAMES = ["PYFLYBY_PATH", "PYFLYBY_KNOWN_IMPORTS_PATH", "PYFLYBY_MANDATORY_IMPORTS_PATH"]
 
 
@@ -53,11 +54,21 @@ def real_env_value(R, v):
     return ":".join((R + c) if c.startswith("/") else c for c in v.split(":"))
 
 
+# The names of the process's streams (stdin & co.): the only targets that do not denote a file in a directory.  The
+# property speaks about "a target file"; for these names the reference follows the code (the current directory).
+DEV_STREAM = re.compile(r"/dev/(?:stdin|stdout|stderr|null|tty|fd/[0-9]+)\Z")
+
+
+def is_dev_stream(t):
+    return bool(DEV_STREAM.match(t))
+
+
 def real_target(R, t):
-    """Abstract (plain str) target -> the str passed to pyflyby.  Targets that start with "/dev" are passed literally
-    (get_default's prefix test is on the raw argument); a relative target is passed as it is (the process's
-    current directory is the world's)."""
-    if t.startswith("/dev") or not t.startswith("/"):
+    """Abstract (plain str) target -> the str passed to pyflyby.  The names of the process's streams (/dev/stdin, …) are
+    passed literally; a relative target is passed as it is (the process's current directory is the world's); every other
+    absolute path lives below the scratch root — "/devel/x.py" too: an ordinary path.  (Worlds with "shm" are
+    materialised below /dev/shm: there every absolute target STARTS WITH "/dev" without being a device — C12-2.)"""
+    if is_dev_stream(t) or not t.startswith("/"):
         return t
     return R + t
 
@@ -88,12 +99,12 @@ def call_target(M, R, t):
 
 
 def unsafe_cwd_dev(case, q):
-    """The one documented O-only situation: a /dev... target while the current directory is one pyflyby's Filename
+    """The one documented O-only situation: a stream target (/dev/stdin, …) while the current directory is one pyflyby's Filename
     refuses.  get_default then keeps the target's own directory, the REAL /dev (or /), whose ancestors are outside the
     scratch world; the model's world has no such directory.  O still judges these lookups (reference: the real
     directory, everything outside the scratch root on one simulated partition), K skips them and the histories they
     occur in."""
-    return not _safe_path(case["cwd"]) and plain_target(case, q["t"]).startswith("/dev")
+    return not _safe_path(case["cwd"]) and is_dev_stream(plain_target(case, q["t"]))
 
 
 def make_fake_dev(R, index):
@@ -154,11 +165,15 @@ class World:
     """Materialised world + the patches that make pyflyby see it (HOME, cwd, etc-dirs, st_dev)."""
 
     base = None         # per-run scratch parent (set by C12.setup, removed by C12.teardown)
+    base_shm = None     # the same below /dev/shm (None: not available), for worlds with case["shm"]
 
     def __init__(self, case):
         self.case = case
         self.index = tree_index(case["tree"])
-        self.tmp = os.path.realpath(tempfile.mkdtemp(prefix="pfbc12_", dir=World.base))
+        parent = World.base_shm if (case.get("shm") and World.base_shm) else World.base
+        if case.get("shm") and parent is None and os.path.isdir(SHM) and os.access(SHM, os.W_OK):
+            parent = SHM                    # outside a run (dbg.py, replay): directly below /dev/shm
+        self.tmp = os.path.realpath(tempfile.mkdtemp(prefix="pfbc12_", dir=parent))
         self.R = self.tmp + "/r"
         build_tree(self.R, case["tree"])
         self.saved_env = {k: os.environ.get(k) for k in ENV_NAMES + ["HOME"]}
@@ -246,6 +261,49 @@ def exc_name(e):
 
 
 _SER = {}
+_FIXES = {}
+
+
+def probe_fixes():
+    """Which of the proposed repairs does the tree under test have?  One behavioural probe each, once per process; the
+    answer only selects the variant of the Lean model K compares with (O never looks at it).
+      dev   (fixes/C12-2.diff): does get_default("/devel…/x.py") start at the target's directory (True) or at the cwd?
+      canon (fixes/C12-4.diff): does `import a.b` in the removals reach the canonical entry 'a.b'?"""
+    import pyflyby._importdb as M
+    key = M.__file__
+    if key in _FIXES:
+        return dict(_FIXES[key])
+    from pyflyby._importclns import ImportMap
+    out = {}
+    try:
+        out["canon"] = len(ImportMap({"a.b": "z.b"}).without_imports(["import a.b"])) == 0
+    except Exception:
+        out["canon"] = False
+    saved_env = {k: os.environ.get(k) for k in ENV_NAMES}
+    saved_cwd = os.getcwd()
+    saved_cache = dict(M.ImportDB._default_cache)
+    try:
+        os.chdir("/")
+        for k in ENV_NAMES:
+            os.environ.pop(k, None)
+        os.environ["PYFLYBY_PATH"] = "EMPTY"
+        M.ImportDB._default_cache.clear()
+        M.ImportDB.get_default("/devel_pfbc12_probe/zz/x.py")
+        dirs = {str(k[1]) for k in M.ImportDB._default_cache if isinstance(k, tuple) and k and k[0] == 1}
+        out["dev"] = "/devel_pfbc12_probe/zz" in dirs
+    except Exception:
+        out["dev"] = False
+    finally:
+        M.ImportDB._default_cache.clear()
+        M.ImportDB._default_cache.update(saved_cache)
+        os.chdir(saved_cwd)
+        for k, v in saved_env.items():
+            if v is None:
+                os.environ.pop(k, None)
+            else:
+                os.environ[k] = v
+    _FIXES[key] = out
+    return dict(out)
 
 
 def ser_db(db, memo=None):
@@ -287,9 +345,9 @@ def ref_target_dir(w, t):
     directory above it (a /dev... target means the current directory); path components pyflyby
     refuses to handle (unsafe characters) are skipped upwards."""
     real = real_target(w.R, plain_target(w.case, t))
-    if real.startswith("/dev") and _safe_path(os.getcwd()):
+    if is_dev_stream(real) and _safe_path(os.getcwd()):
         return os.getcwd()
-    # (a /dev... target in a current directory that cannot be represented is a path like any other: the real /dev)
+    # (a stream target in a current directory that cannot be represented is a path like any other: the real /dev)
     p = os.path.normpath(os.path.join(os.getcwd(), real))
     if not os.path.isdir(p):
         p = os.path.dirname(p)
@@ -418,6 +476,18 @@ def forgotten(imp, forget):
     return False
 
 
+def name_forgotten(name, forget):
+    """Is the dotted name `name` (a key or a value of the canonical map) named by the forget list?  A canonical entry has
+    no import_as: it is matched by `from a import b` and by `import a.b`, and by a star entry covering its module — "which
+    also removes matching mandatory and canonical entries"."""
+    return forgotten([name, name.split(".")[-1]], forget) or [name, name] in forget
+
+
+def name_forgotten_as_coded(name, forget):
+    """What ImportMap.without_imports tests on the pinned tree (finding C12-4): Import(name) in removals, nothing else."""
+    return [name, name.split(".")[-1]] in forget
+
+
 def ref_db(w, files):
     """Union of the file contents minus forget, from the abstract contents (the generator's ground truth)."""
     known, mand, forget, canon = [], [], [], {}
@@ -441,12 +511,11 @@ def ref_db(w, files):
                     canon[k] = v
     uniq = lambda l: sorted({tuple(x) for x in l})
     fl = [list(x) for x in uniq(forget)]
-    asimp = lambda name: [name, name.split(".")[-1]]
     return {
         "known": [list(x) for x in uniq(known) if not forgotten(list(x), fl)],
         "mandatory": [list(x) for x in uniq(mand) if not forgotten(list(x), fl)],
         "forget": fl,
-        "canonical": sorted([k, v] for k, v in canon.items() if asimp(k) not in fl and asimp(v) not in fl),
+        "canonical": sorted([k, v] for k, v in canon.items() if not name_forgotten(k, fl) and not name_forgotten(v, fl)),
     }
 
 
@@ -478,6 +547,17 @@ class C12(Prop):
         "Pfb.C12.D15_entry_empty",
         "Pfb.C12.D15_lookup_empty",
         "Pfb.C12.D15_fixed_lookup",
+        "Pfb.C12.C12_forget_canonical_fixed",
+        "Pfb.C12.fromDataFixed_eq_fixCanon",
+        "Pfb.C12.C12_target_dir_fixed",
+        "Pfb.C12.C12_target_dir_mount_blind",
+        "Pfb.C12.C12_4_coded_keeps_dotted",
+        "Pfb.C12.C12_4_fixed_drops_dotted",
+        "Pfb.C12.C12_4_coded_keeps_star",
+        "Pfb.C12.C12_4_fixed_drops_star",
+        "Pfb.C12.C12_2_coded_uses_cwd",
+        "Pfb.C12.C12_2_fixed_uses_target",
+        "Pfb.C12.C12_2_stream_is_cwd",
     ]
     anchors = [
         ("lib/python/pyflyby/_importdb.py", "_get_env_var"),
@@ -507,7 +587,9 @@ class C12(Prop):
             "(several imports per list item, `;`/newline/comment inside an item, empty lists and items, FULLWIDTH identifiers "
             "that NFKC-normalise to the ASCII name, 22 kinds of statement a database file must not contain); targets as absolute or "
             "relative str, None, Filename object, or through interpret_arg; one world in ten has a current directory or $HOME "
-            "whose name pyflyby refuses (blank), with /dev/stdin-like targets; "
+            "whose name pyflyby refuses (blank), with /dev/stdin-like targets; one world in eight is materialised below /dev/shm "
+            "(every absolute target then starts with the characters /dev without being a device: finding C12-2); forget lists "
+            "name canonical keys/values as `from a import b`, as `import a.b` and through star entries (finding C12-4); "
             "6 lookup histories (length <= 4) per world over a small target x env alphabet, plus (exhaustive) every history "
             "up to length 2 over a 3 x 2 alphabet (quick) / 3, every tenth world 4, over a 4 x 3 alphabet (thorough); a case is non-trivial when some lookup loads "
             ">= 2 files and some history has a cache hit")
@@ -515,7 +597,9 @@ class C12(Prop):
                     "`os.stat` as seen by pyflyby._importdb reports the simulated partition as st_dev (the real `_get_st_dev` runs on "
                     "it); `_find_etc_dirs`, $HOME and the cwd are set by the harness (the real `_find_etc_dirs` is compared with "
                     "<installation>/etc/pyflyby [+ /etc/pyflyby] in the fresh-interpreter reference)",
-                    "a /dev... target in a current directory pyflyby refuses resolves to the REAL /dev: judged by O only "
+                    "which variant of the model K compares with (the `/dev` test, the canonical map's forget rule) is chosen by "
+                    "two behavioural probes of the tree under test (c12.probe_fixes); O does not use them",
+                    "a stream target (/dev/stdin, …) in a current directory pyflyby refuses resolves to the REAL /dev: judged by O only "
                     "(reference: the real directory, everything above the scratch root on one partition), skipped by K",
                     "parsing of database files (PythonBlock, ImportStatement) is not modelled: the model receives the parsed "
                     "imports the generator rendered; the oracle compares the real parse with that ground truth"]
@@ -534,10 +618,20 @@ class C12(Prop):
         # one parent per run: worlds of workers killed at the deadline are removed with it
         World.base = os.path.realpath(tempfile.mkdtemp(prefix="pfbc12run_"))
 
+        World.base_shm = None
+        if os.path.isdir(SHM) and os.access(SHM, os.W_OK):
+            try:
+                World.base_shm = os.path.realpath(tempfile.mkdtemp(prefix="pfbc12run_", dir=SHM))
+            except OSError:
+                World.base_shm = None
+
     def teardown(self):
         if World.base:
             shutil.rmtree(World.base, ignore_errors=True)
             World.base = None
+        if World.base_shm:
+            shutil.rmtree(World.base_shm, ignore_errors=True)
+            World.base_shm = None
 
     # -- cases ---------------------------------------------------------------
     def gen_case(self, rng, i, tier):
@@ -559,9 +653,13 @@ class C12(Prop):
 
     # -- implementation ------------------------------------------------------
     def run_impl(self, case):
+        fixes = probe_fixes()
         w = World(case)
         try:
-            return self._run(w, case)
+            obs = self._run(w, case)
+            obs["fixes"] = fixes
+            obs["mount"] = "/dev/shm/w" if w.R.startswith("/dev") else "/tmp/w"
+            return obs
         finally:
             w.close()
 
@@ -600,6 +698,12 @@ class C12(Prop):
                 ref = "harness:" + repr(e)
             obs["fresh"][k] = {"db": ser_db(r, memo), "files": files, "ref_files": ref,
                                "keys": w.cache_keys()}
+            if case.get("shm"):
+                # what the documented expansion gives from the CURRENT directory (only used to keep family C12-2 narrow)
+                try:
+                    obs["fresh"][k]["ref_files_cwd"] = ref_files(w, {"t": None, "env": q["env"]})
+                except Exception:
+                    pass
         # histories from an empty cache
         for h in case["histories"]:
             DB._default_cache.clear()
@@ -744,7 +848,8 @@ class C12(Prop):
                 fails.append(dict(what="lookup failed though the search path is valid", query=q, err=db.get("err"), ref_files=ref))
                 continue
             if files != ref:
-                fails.append(dict(what="file list differs from the documented expansion", query=q, got=files, want=ref))
+                fails.append(dict(what="file list differs from the documented expansion", query=q, got=files, want=ref,
+                                  **({"cwd_files": fr["ref_files_cwd"]} if "ref_files_cwd" in fr else {})))
                 continue
             if any(f.startswith("OUTSIDE:") for f in ref):
                 continue        # a database file of the real file system (above the scratch root): contents unknown
@@ -801,10 +906,9 @@ class C12(Prop):
             for imp in db[coll]:
                 if forgotten(imp, fl):
                     fails.append(dict(what="forgotten import present in " + coll, imp=imp, query=q))
-        asimp = lambda name: [name, name.split(".")[-1]]
         for k, v in db["canonical"]:
-            if asimp(k) in fl or asimp(v) in fl:
-                fails.append(dict(what="forgotten import present in canonical", entry=[k, v], query=q))
+            if name_forgotten(k, fl) or name_forgotten(v, fl):
+                fails.append(dict(what="forgotten import present in canonical", entry=[k, v], forget=fl, query=q))
         bfi = dict((k, v) for k, v in db["bfi"])
         for k, v in db["bfi"]:
             for imp in v:
@@ -839,7 +943,41 @@ class C12(Prop):
         return ([key, key] in f.get("forget", [])
                 and any(fn.startswith(key + ".") for fn, _ in f.get("known", [])))
 
-    families = {"d15_forgotten_derived_parent": _fam_d15.__func__}
+    @staticmethod
+    def _fam_c12_2(case, f):
+        """C12-2: the world is materialised below a directory whose path starts with "/dev" (/dev/shm), the target is an
+        absolute path (as str, Filename or through interpret_arg) that is not a stream name, and the only thing wrong is
+        the file list: it is the one of the current directory."""
+        if f.get("what") != "file list differs from the documented expansion" or not case.get("shm"):
+            return False
+        t = (f.get("query") or [None])[0]
+        if not isinstance(t, str):
+            return False
+        if t[:3] in ("FN:", "IA:"):
+            t = t[3:]
+        # … and the list observed is exactly the documented expansion from the current directory
+        return t.startswith("/") and not is_dev_stream(t) and f.get("cwd_files") is not None and f["cwd_files"] == f.get("got")
+
+    @staticmethod
+    def _fam_c12_4(case, f):
+        """C12-4: a canonical entry survives although its key or value is named by the forget list, and the name is reached
+        only by `import a.b` (dotted) or by a star entry — not by `from a import b`, which the code honours."""
+        fl = f.get("forget")
+        if fl is None:
+            return False
+        only_wide = lambda e: (not any(name_forgotten_as_coded(n, fl) for n in e)
+                               and any(name_forgotten(n, fl) for n in e))
+        if f.get("what") == "forgotten import present in canonical":
+            return only_wide(f["entry"])
+        if f.get("what") == "canonical differs from union-minus-forget of the files reached":
+            got, want = f.get("got") or [], f.get("want") or []
+            extra = [e for e in got if e not in want]
+            return bool(extra) and all(e in got for e in want) and all(only_wide(e) for e in extra)
+        return False
+
+    families = {"d15_forgotten_derived_parent": _fam_d15.__func__,
+                "c12_2_dev_prefix_target": _fam_c12_2.__func__,
+                "c12_4_canonical_forget_dotted_or_star": _fam_c12_4.__func__}
 
     # -- model ---------------------------------------------------------------
     @staticmethod
@@ -852,6 +990,7 @@ class C12(Prop):
         queries = [json.loads(k) for k in obs["fresh"]]
         plain = lambda q: {"t": plain_target(case, q["t"]), "env": q["env"]}
         return [dict(op="world", tree=self._strip(case["tree"]), home=case["home"], cwd=case["cwd"], etc=case["etc"],
+                     mount=obs.get("mount", "/tmp/w"), devfix=bool(obs.get("fixes", {}).get("dev")),
                      queries=[{"t": plain_target(case, t), "env": e} for t, e in queries],
                      histories=[[plain(q) for q in h] for h in case["histories"]])]
 
@@ -863,14 +1002,15 @@ class C12(Prop):
             C12._d15_fixed = bool(st) and st[0] == "fixed"
         return "bfi_fixed" if self._d15_fixed else "bfi"
 
-    def _cmp_db(self, got, want):
+    def _cmp_db(self, got, want, canon_fixed=False):
         if ("err" in got) != ("err" in want) or ("err" in got and got["err"] != want["err"]):
             return "impl=%s model=%s" % (got.get("err", "a database"), want.get("err", "a database"))
         if "err" in got:
             return None
         for coll in ("known", "mandatory", "forget", "canonical"):
-            if got[coll] != want[coll]:
-                return "%s: impl=%s model=%s" % (coll, json.dumps(got[coll])[:300], json.dumps(want[coll])[:300])
+            wc = want["canonical_fixed"] if (coll == "canonical" and canon_fixed) else want[coll]
+            if got[coll] != wc:
+                return "%s: impl=%s model=%s" % (coll, json.dumps(got[coll])[:300], json.dumps(wc)[:300])
         wb = want[self._bfi_field()]
         if got["bfi"] != wb:
             for g, m in zip(got["bfi"], wb):
@@ -885,13 +1025,14 @@ class C12(Prop):
 
     def compare(self, case, obs, resps):
         r = resps[0]
+        cf = bool(obs.get("fixes", {}).get("canon"))
         if not r.get("sorted"):
             return "directory listing sent to the model is not in the model's (code-point) order"
         for (k, fr), mf in zip(obs["fresh"].items(), r["fresh"]):
             t, e = json.loads(k)
             if unsafe_cwd_dev(case, {"t": t, "env": e}):
                 continue                                  # O-only, see unsafe_cwd_dev
-            d = self._cmp_db(fr["db"], mf["db"])
+            d = self._cmp_db(fr["db"], mf["db"], cf)
             if d:
                 return "fresh %s: %s" % (k, d)
             if fr["files"] != mf["files"]:
@@ -902,7 +1043,7 @@ class C12(Prop):
             if any(unsafe_cwd_dev(case, q) for q in case["histories"][hi]):
                 continue
             for si, (st, ms) in enumerate(zip(steps, msteps)):
-                d = self._cmp_db(st["db"], ms["db"])
+                d = self._cmp_db(st["db"], ms["db"], cf)
                 if d:
                     return "history %d step %d: %s" % (hi, si, d)
                 if self._keyset(st["keys"]) != self._keyset(ms["keys"]):
@@ -925,6 +1066,10 @@ class C12(Prop):
         def inc(k, n=1):
             acc[k] = acc.get(k, 0) + n
         inc("cases_from_" + case.get("_src", "?"))
+        if obs.get("mount", "").startswith("/dev"):
+            inc("worlds_materialised_below_dev_shm")
+        for k, v in sorted(obs.get("fixes", {}).items()):
+            inc("cases_on_a_tree_with_fix_%s_%s" % (k, "present" if v else "absent"))
         for k, fr in obs["fresh"].items():
             t = json.loads(k)[0]
             inc("queries")
@@ -945,6 +1090,8 @@ class C12(Prop):
                 inc("files_%s" % ("0" if n == 0 else "1" if n == 1 else "2-4" if n <= 4 else ">4"))
                 if fr["db"]["forget"]:
                     inc("query_with_forget")
+                if fr["db"]["canonical"] and any(ia == "*" or (fn == ia and "." in fn) for fn, ia in fr["db"]["forget"]):
+                    inc("query_with_canonical_entries_and_a_dotted_or_star_forget")
                 if any(not v for _, v in fr["db"]["bfi"]):
                     inc("query_with_empty_lookup_entry")
         links = {p for p, n in tree_index(case["tree"]).items() if "ln" in n}
